@@ -461,3 +461,116 @@ func H_C03_multi() {
 	}
 	vCover("ran")
 }
+
+func init() { vHarnesses["H_C03_many"] = H_C03_many }
+
+// more matching documents than the builder's default k (10)
+func H_C03_many() {
+	ix := NewBM25SearchIndex()
+	corpus := map[uint32]*vCorpusDoc{}
+	words := []string{"dog", "cat", "emu", "fox fox", "the"}
+	for i := 0; i < 12; i++ {
+		text := "fox " + words[i%5]
+		if i%4 == 3 {
+			text += " " + words[(i+2)%5]
+		}
+		id := uint32(40 - 3*i)
+		vAssert(ix.Add(id, text) == nil, "add-ok")
+		corpus[id] = &vCorpusDoc{toks: tokenize(normalize(text))}
+	}
+	ix.Remove(40 - 3*4)
+	corpus[40-3*4].removed = true
+	k := vInt("k")
+	s := ix.NewSearch().WithQuery("fox")
+	if vChoose("call_with_k", 2) == 1 {
+		s = s.WithK(k)
+	} else {
+		k = 10
+	}
+	res, err := s.Execute()
+	vAssert(err == nil, "search-ok")
+	vBM25CheckIDs(res, corpus, "fox", k)
+	if len(res) > 10 {
+		vCover("more-than-default-k")
+	}
+}
+
+// like vBM25Check for an arbitrary id set (12 documents)
+func vBM25CheckIDs(res []TextResult, corpus map[uint32]*vCorpusDoc, query string, k int) {
+	qt := tokenize(normalize(query))
+	N := float64(len(corpus))
+	total := 0
+	for _, d := range corpus {
+		total += len(d.toks)
+	}
+	avg := float64(total) / N
+	type exp struct {
+		id    uint32
+		score float64
+	}
+	var E []exp
+	for id, d := range corpus {
+		if d.removed {
+			continue
+		}
+		sc := float64(0)
+		match := false
+		for _, t := range qt {
+			tf, df := 0, 0
+			for _, o := range corpus {
+				has := false
+				for _, x := range o.toks {
+					if x == t {
+						has = true
+					}
+				}
+				if has {
+					df++
+				}
+			}
+			for _, x := range d.toks {
+				if x == t {
+					tf++
+				}
+			}
+			if tf > 0 {
+				match = true
+				sc += vBM25(N, float64(df), float64(tf), float64(len(d.toks)), avg)
+			}
+		}
+		if match {
+			E = append(E, exp{id, sc})
+		}
+	}
+	want := len(E)
+	if k > 0 && k < len(E) {
+		want = k
+	}
+	vAssert(len(res) == want, "exactly-the-matching-documents")
+	for i, r := range res {
+		ok := false
+		for _, e := range E {
+			if e.id == r.Id {
+				ok = true
+				vAssert(vSameF32(r.Score, float32(0)+float32(e.score)), "bm25-score")
+			}
+		}
+		vAssert(ok, "result-matches-live-eligible")
+		if i > 0 {
+			vAssert(!(r.Score > res[i-1].Score), "descending-order")
+		}
+	}
+	for _, e := range E {
+		ret := false
+		for _, r := range res {
+			if r.Id == e.id {
+				ret = true
+			}
+		}
+		if !ret {
+			for _, r := range res {
+				vAssert(!(float32(e.score) > r.Score), "top-k-selection")
+			}
+		}
+	}
+}
